@@ -725,6 +725,10 @@ static void bus_case (char **tok, int ntok, Buf *res)
    lib new <call|signal|ret|err> <hexdest|-> <hexpath> <hexiface> <hexmember>
    lib append <arg> ...      arg: s<hex> | u<n> | y<n> | t<n> | a<hex>:<hex>:... (array of strings, dbus_message_append_args)
    lib copy <arg> ...        a message with these arguments is copied
+   lib marshal <arg> ...     ... is serialised with dbus_message_marshal
+   lib demarshal <arg> ...   ... its serialisation is parsed with dbus_message_demarshal
+   (after every reported failure and its retry: ;probe=same|DIFF - set_member, set_sender, append, marshal on the
+    message behave as on a twin that never saw the failure)
    lib set <field> <hexvalue> field: destination sender member interface path error_name | serial <n>
    lib rule <hexrule>        bus_match_rule_parse
    lib config <n>            bus_config_load of built-in configuration number n
@@ -792,6 +796,9 @@ static const char *cfg_text (int n)
     }
 }
 
+static char *last_blob;                       /* hex of what dbus_message_marshal produced */
+static unsigned char *demarshal_src; static int demarshal_len;
+
 /* perform the operation once; the message operated on is m (may be NULL), results in *r / *obj */
 static dbus_bool_t lib_do (char **tok, int ntok, DBusMessage *m, const char *setval, DBusMessage **r, void **obj, DBusError *err)
 {
@@ -808,6 +815,21 @@ static dbus_bool_t lib_do (char **tok, int ntok, DBusMessage *m, const char *set
     }
   else if (strcmp (op, "append") == 0) ok = append_args (m, tok + 2, ntok - 2);
   else if (strcmp (op, "copy") == 0) { *r = dbus_message_copy (m); ok = *r != NULL; }
+  else if (strcmp (op, "marshal") == 0)
+    {
+      char *buf = NULL; int len = 0, j;
+      free (last_blob); last_blob = NULL;
+      ok = dbus_message_marshal (m, &buf, &len);
+      if (ok)
+        {
+          last_blob = malloc ((size_t) len * 2 + 2);
+          for (j = 0; j < len; j++) sprintf (last_blob + 2 * j, "%02x", (unsigned char) buf[j]);
+          last_blob[2 * len] = 0;
+          dbus_free (buf);
+        }
+    }
+  else if (strcmp (op, "demarshal") == 0)
+    { *r = dbus_message_demarshal ((const char *) demarshal_src, demarshal_len, err); ok = *r != NULL; }
   else if (strcmp (op, "set") == 0)
     {
       const char *f = tok[2];
@@ -842,6 +864,7 @@ static dbus_bool_t lib_do (char **tok, int ntok, DBusMessage *m, const char *set
 static void lib_result (const char *op, dbus_bool_t ok, DBusMessage *m, DBusMessage *r, void *obj, DBusError *err, Buf *o)
 {
   int is_msg_op = strcmp (op, "append") == 0 || strcmp (op, "set") == 0 || strcmp (op, "copy") == 0;
+  if (ok && strcmp (op, "marshal") == 0) { bput (o, "ok:%s", last_blob ? last_blob : "?"); return; }
   if (ok)
     {
       bput (o, "ok:");
@@ -853,6 +876,19 @@ static void lib_result (const char *op, dbus_bool_t ok, DBusMessage *m, DBusMess
   else bput (o, "oom");
 }
 
+/* Is the message still fully usable?  A setter on a field that exists, a setter that adds a field, an
+   append of a basic value, a marshal: return values and the resulting bytes.  (Destructive: done last.) */
+static void usability (DBusMessage *x, Buf *o)
+{
+  dbus_uint32_t v = 77; char *buf = NULL; int len = 0, j;
+  int r1 = dbus_message_set_member (x, "Probe") ? 1 : 0;
+  int r2 = dbus_message_set_sender (x, ":1.99") ? 1 : 0;
+  int r3 = dbus_message_append_args (x, DBUS_TYPE_UINT32, &v, DBUS_TYPE_INVALID) ? 1 : 0;
+  int r4 = dbus_message_marshal (x, &buf, &len) ? 1 : 0;
+  bput (o, "%d%d%d%d:", r1, r2, r3, r4);
+  if (r4) { for (j = 0; j < len; j++) bput (o, "%02x", (unsigned char) buf[j]); dbus_free (buf); }
+}
+
 /* one attempt with the k-th allocation failing; verdict into o; returns whether a failure was injected */
 static int lib_attempt (char **tok, int ntok, int k, Buf *o)
 {
@@ -860,15 +896,18 @@ static int lib_attempt (char **tok, int ntok, int k, Buf *o)
   int failed;
   DBusMessage *m = NULL, *r = NULL; char *before = NULL, *after = NULL;
   dbus_bool_t ok = FALSE; DBusError err = DBUS_ERROR_INIT; void *obj = NULL;
-  int is_msg_op = strcmp (op, "append") == 0 || strcmp (op, "set") == 0 || strcmp (op, "copy") == 0;
+  int is_msg_op = strcmp (op, "append") == 0 || strcmp (op, "set") == 0 || strcmp (op, "copy") == 0 ||
+                  strcmp (op, "marshal") == 0 || strcmp (op, "demarshal") == 0;
+  int has_preargs = strcmp (op, "copy") == 0 || strcmp (op, "marshal") == 0 || strcmp (op, "demarshal") == 0;
   char *setval = NULL; int l;
   /* warm up the library's global caches so that they do not show up as growth */
   { DBusMessage *w = base_message (); dbus_message_unref (w); }
   if (is_msg_op)
     {
       m = base_message ();
-      if (strcmp (op, "copy") == 0 && !append_args (m, tok + 2, ntok - 2)) die ("oom");
+      if (has_preargs && !append_args (m, tok + 2, ntok - 2)) die ("oom");
       before = msg_hex (m);
+      if (strcmp (op, "demarshal") == 0) { free (demarshal_src); demarshal_src = unhex (before, &demarshal_len); }
     }
   if (strcmp (op, "new") == 0 && (strcmp (tok[2], "ret") == 0 || strcmp (tok[2], "err") == 0)) m = base_message ();
   if (strcmp (op, "set") == 0 && strcmp (tok[2], "serial") != 0) setval = (char *) unhex (tok[3], &l);
@@ -884,7 +923,7 @@ static int lib_attempt (char **tok, int ntok, int k, Buf *o)
   if (ok || (dbus_error_is_set (&err) && !dbus_error_has_name (&err, DBUS_ERROR_NO_MEMORY)))
     {
       lib_result (op, ok, m, r, obj, &err, o);
-      if (strcmp (op, "copy") == 0 && strcmp (before, after) != 0) bput (o, "|BAD:source-changed");
+      if ((strcmp (op, "copy") == 0 || strcmp (op, "marshal") == 0 || strcmp (op, "demarshal") == 0) && strcmp (before, after) != 0) bput (o, "|BAD:source-changed");
     }
   else
     {
@@ -908,6 +947,22 @@ static int lib_attempt (char **tok, int ntok, int k, Buf *o)
       if (obj2 && strcmp (op, "config") == 0) bus_config_parser_unref (obj2);
       if (r2) dbus_message_unref (r2);
       dbus_error_free (&err2);
+      /* after the failed operation and its retry the message must be as usable as a twin that never saw the failure */
+      if (m != NULL)
+        {
+          DBusMessage *twin = base_message (), *r3 = NULL; void *obj3 = NULL; DBusError err3 = DBUS_ERROR_INIT;
+          Buf pa = { NULL, 0, 0 }, pb = { NULL, 0, 0 };
+          breset (&pa); breset (&pb);
+          if (has_preargs && !append_args (twin, tok + 2, ntok - 2)) die ("oom");
+          lib_do (tok, ntok, twin, setval, &r3, &obj3, &err3);
+          if (r3) dbus_message_unref (r3);
+          dbus_error_free (&err3);
+          usability (m, &pa); usability (twin, &pb);
+          if (strcmp (pa.b, pb.b) == 0) bput (o, ";probe=same");
+          else bput (o, ";probe=DIFF:%.8s/%.8s", pa.b, pb.b);
+          dbus_message_unref (twin);
+          free (pa.b); free (pb.b);
+        }
     }
   if (obj && strcmp (op, "rule") == 0) bus_match_rule_unref (obj);
   if (obj && strcmp (op, "config") == 0) bus_config_parser_unref (obj);
@@ -915,6 +970,7 @@ static int lib_attempt (char **tok, int ntok, int k, Buf *o)
   if (r) dbus_message_unref (r);
   if (m) dbus_message_unref (m);
   free (before); free (after); free (setval);
+  free (last_blob); last_blob = NULL;
   dbus_shutdown ();
   if (_dbus_get_malloc_blocks_outstanding () != 0) bput (o, "|BAD:leak=%d", _dbus_get_malloc_blocks_outstanding ());
   return failed;
